@@ -97,6 +97,11 @@ func negotiate(c *core.Ctx) {
 			obj := astx.ObjOf(info, x)
 			for _, l := range loopsIn(fd.Body) {
 				if r, ok := l.(*ast.RangeStmt); ok && r.Value != nil && obj != nil && astx.ObjOf(info, r.Value) == obj && isAcceptList(r.X) {
+					// the element as the client wrote it: a loop body that rewrites the variable (cuts
+					// parameters off, trims, lower-cases) compares something the client did not send
+					if objWrittenIn(info, r.Body, obj) {
+						return "", false
+					}
 					return astx.CanonKey(info, x), true
 				}
 			}
@@ -1463,6 +1468,52 @@ func limitWiring(c *core.Ctx) {
 		})
 	}
 	c.Floor("wired fields in NewConn literals", lits, 12)
+	// readers built anywhere else decode what the peer sent instead of a message (the JSON body of a
+	// unary error): the application's per-message limit does not apply to them - an error body cut by
+	// it loses the server's code and the client falls back to guessing from the HTTP status
+	isRoot := map[*ast.FuncDecl]bool{}
+	for _, m := range roots {
+		isRoot[p.Decl(m)] = true
+	}
+	others := 0
+	for _, fd := range p.AllFuncDecls(p.Connect) {
+		if isRoot[fd] {
+			continue
+		}
+		ast.Inspect(fd.Body, func(x ast.Node) bool {
+			lit, ok := x.(*ast.CompositeLit)
+			if !ok {
+				return true
+			}
+			t := astx.NamedOf(info.TypeOf(lit))
+			if t == nil || t.Obj().Pkg() == nil || t.Obj().Pkg().Path() != core.ConnectPath {
+				return true
+			}
+			st, ok := t.Underlying().(*types.Struct)
+			if !ok {
+				return true
+			}
+			for i := 0; i < st.NumFields(); i++ {
+				if st.Field(i).Name() != "readMaxBytes" {
+					continue
+				}
+				others++
+				var val ast.Expr
+				for _, el := range lit.Elts {
+					if kv, ok := el.(*ast.KeyValueExpr); ok && astx.ObjOf(info, kv.Key) == st.Field(i) {
+						val = kv.Value
+					}
+				}
+				zero := val == nil
+				if v, isC := astx.ConstInt(info, val); val != nil && isC && v == 0 {
+					zero = true
+				}
+				c.Check(zero, fmt.Sprintf("error-body/%s/%s", core.FuncName(fd), t.Obj().Name()), lit.Pos(), "%s builds a %s outside NewConn (for the peer's error body) without a message-size limit", core.FuncName(fd), t.Obj().Name())
+			}
+			return true
+		})
+	}
+	c.Floor("readers built outside NewConn", others, 1)
 
 	// params literals are filled from the config fields of the same name
 	pl := 0
